@@ -463,6 +463,24 @@ func C19Base(garbageDB string) C19Config {
 	return C19Config{Text: text, Class: "base", Desc: desc}
 }
 
+// C19Variant is the base configuration with the given keys put into the states named by label.
+func C19Variant(garbageDB string, set map[string]string) C19Config {
+	keys := C19Keys(garbageDB, nil)
+	choice := make([]int, len(keys))
+	var names []string
+	for i, k := range keys {
+		choice[i] = k.Base
+		if label, ok := set[k.Name]; ok {
+			k = c19SetBase(k, label)
+			choice[i] = k.Base
+			names = append(names, k.Name+"="+label)
+		}
+	}
+	sort.Strings(names)
+	text, _ := c19Render(keys, choice)
+	return C19Config{Text: text, Class: "variant", Desc: "variant:" + strings.Join(names, ";"), MustFail: c19MustFail(keys, choice)}
+}
+
 // C19Singles enumerates every single-key variation of the base configuration: every key × every
 // one of its states.
 func C19Singles(garbageDB string) []C19Config {
@@ -809,7 +827,11 @@ func (r C19Reload) String() string {
 	}
 	s += " subnets:" + r.SubAct
 	if r.SubAct == "switch" {
-		s += fmt.Sprintf("(%s)", C19SubnetFiles()[r.SubIdx].Name)
+		if files := C19SubnetFiles(); r.SubIdx < len(files) {
+			s += fmt.Sprintf("(%s)", files[r.SubIdx].Name)
+		} else {
+			s += fmt.Sprintf("(extra#%d)", r.SubIdx)
+		}
 	}
 	return s
 }
